@@ -147,6 +147,74 @@ func C11Child(c *core.Ctx) {
 	if !c.Quick {
 		nHist = 400
 	}
+	// histories over the small-scope family: sixteen goroutines share its schema, each takes every
+	// sixteenth document of a block of the family, every kind of call in turn
+	{
+		light := SmallScopeLight()
+		block := 320
+		nBlocks := 4
+		if !c.Quick {
+			nBlocks = (len(light) + block - 1) / block
+		}
+		for bIdx := 0; bIdx < nBlocks; bIdx++ {
+			s, err := loadImpl(smallScopeSchema)
+			if err != nil {
+				break
+			}
+			lo := bIdx * block * len(light) / (nBlocks * block)
+			if c.Quick {
+				lo = bIdx * (len(light) - block) / max(1, nBlocks-1)
+			}
+			hi := min(len(light), lo+block)
+			nG := 16
+			jobs := make([][]c11Job, nG)
+			for i := lo; i < hi; i++ {
+				jobs[i%nG] = append(jobs[i%nG], c11Job{kind: []int{0, 2, 3, 0}[i%4], query: light[i].Query, vars: "{76=i01,62=t}"})
+			}
+			before := deepSnapshot(s)
+			want := make([][]string, nG)
+			for g := range jobs {
+				for _, j := range jobs[g] {
+					want[g] = append(want[g], runJob(s, j))
+				}
+			}
+			afterSeq := deepSnapshot(s)
+			got := make([][]string, nG)
+			var wg sync.WaitGroup
+			start := make(chan struct{})
+			for g := range jobs {
+				wg.Add(1)
+				go func(g int) {
+					defer wg.Done()
+					<-start
+					for _, j := range jobs[g] {
+						got[g] = append(got[g], runJob(s, j))
+					}
+				}(g)
+			}
+			close(start)
+			wg.Wait()
+			after := deepSnapshot(s)
+			status := "ok"
+			if before != afterSeq {
+				status = "DRIFT sequential calls changed the schema"
+			} else if before != after {
+				status = "DRIFT concurrent calls changed the schema"
+			} else {
+				for g := range jobs {
+					for k := range jobs[g] {
+						if got[g][k] != want[g][k] {
+							status = fmt.Sprintf("MISMATCH goroutine %d call %d kind %d: alone %q, concurrent %q; query %q", g, k, jobs[g][k].kind, want[g][k], got[g][k], jobs[g][k].query)
+						}
+					}
+				}
+			}
+			fmt.Printf("H small-scope-%d goroutines=%d %s\n", bIdx, nG, status)
+			if status != "ok" {
+				fmt.Printf("SCHEMA %s\n", hex.EncodeToString([]byte(smallScopeSchema)))
+			}
+		}
+	}
 	for hIdx := 0; hIdx < nHist; hIdx++ {
 		gs := gen.NewSchema(gen.New(c.Rng.U64()))
 		srcs := []string{gs.Text()}
